@@ -124,7 +124,7 @@ def run_shard(shard, res):
                 res.count("firings:skipped-inexact-moment-matching")
                 continue
             try:
-                v = check_firing(f, rng)
+                v = check_firing(f, rng, max_cost=400000)   # DAG-shaped programs lift to exponentially large trees: those firings are undecided
             except Exception as e:
                 res.count("firings:checker-error:%s" % type(e).__name__)
                 continue
